@@ -63,8 +63,9 @@ DeepEq(a, b) ==
 (* (pattern, string) pair {p, s, m: some substring matches, f: the entire string matches}.               *)
 RxData == ndJsonDeserialize("rx.ndjson")
 RxDom  == {<<RxData[i].p, RxData[i].s>> : i \in 1..Len(RxData)}
-RxFun  == [d \in RxDom |-> LET i == CHOOSE i \in 1..Len(RxData) : <<RxData[i].p, RxData[i].s>> = d IN RxData[i]]
-RxLook(p, s, full) == IF <<p, s>> \in RxDom THEN BoolV(IF full THEN RxFun[<<p, s>>].f ELSE RxFun[<<p, s>>].m) ELSE AnyV
+\* the facts as a set of <<pattern, string, whole-string?, result>> (one pass, no search per lookup)
+RxFacts == {<<RxData[i].p, RxData[i].s, FALSE, RxData[i].m>> : i \in 1..Len(RxData)} \cup {<<RxData[i].p, RxData[i].s, TRUE, RxData[i].f>> : i \in 1..Len(RxData)}
+RxLook(p, s, full) == IF <<p, s>> \in RxDom THEN BoolV(<<p, s, full, TRUE>> \in RxFacts) ELSE AnyV
 
 (* ------------------------------------------------------------------ operator tables *)
 \* == : "T", "F" or "ANY"
